@@ -186,3 +186,11 @@ MODULES += [
                  "GoldilocksVerif.Gen.Scalar", "GoldilocksVerif.Gen.Ext", "GoldilocksVerif.Gen.ConvGen"],
      "roots": [("Goldilocks3", "mulScalar")]},
 ]
+
+# MerklehashGoldilocks::getTreeNumElements (merklehash_goldilocks.hpp): the size of the tree buffer.  Own module so that every
+# other generated file stays as it is; bridge theorem `C08_generated_getTreeNumElements` (Props/C08.lean).
+MODULES += [
+    {"name": "MerkleSizeGen", "ns": "Gen.MerkleSizeGen", "dispatch": False,
+     "imports": ["GoldilocksVerif.Isa.X86", "GoldilocksVerif.Model.Region"],
+     "roots": [("MerklehashGoldilocks", "getTreeNumElements")]},
+]
